@@ -14,6 +14,7 @@ HARNESSES = [
     Harness('c05_tuple_unchanged_both_ways', 'value.tuple', G + 'tuple<u8, u64>', bounded=FULL),
     Harness('c05_option_unchanged_both_ways', 'value.option', G + 'option<u32>', bounded=FULL),
     Harness('c05_result_unchanged_both_ways', 'value.result', G + 'result<u32, u8>', bounded=FULL),
+    Harness('c05_result_with_one_payload_unchanged_both_ways', 'value.result_one_payload', G + 'result<u32> and result<_, u8>', bounded=FULL),
     Harness('c05_flags_and_enum_unchanged_both_ways', 'value.flags_and_enum', G + 'flags, enum', bounded=FULL),
     Harness('c05_variant_numeric_cases_unchanged_both_ways', 'value.variant_numeric_cases', G + 'variant with u32 / u64 / string cases (joined 64-bit-or-pointer slot), numeric cases', bounded=FULL),
     Harness('c05_f32_in_wide_variant_export_unchanged', 'value.f32_in_wide_variant_export', G + 'variant { f32, u64, f64 } through an export, every bit pattern', bounded=FULL),
